@@ -12,16 +12,32 @@ Tie of the theorems of NxProps/C14.lean to the tree:
    object per side behave exactly like fresh pairs with fresh Settings, and the caller's Settings object is unchanged;
  * for every versioned structure: the revision byte raised and 1..16 bytes spliced into the length-prefixed body ->
    same fields, rest untouched (forward_compat); the generated obligations `rev_ascending_<Struct>` are the
-   theorem's hypothesis.
+   theorem's hypothesis;
+ * the WHOLE path (harness/c14_wire.py): real generated client -> RMCClient -> real PRUDP connection (rmc.connect) ->
+   simulated network (harness/sim.py, virtual time) -> real PRUDP server (rmc.serve) -> RMCClient -> generated server, under
+   every shipped settings profile (default = v1, 3ds and friends = v0, switch = lite; loaded with the library's loader),
+   with and without credentials, client / server configured with different minor versions, a dozen calls per connection
+   (plain, structure-carrying, anydata, values large enough to fragment, calls in flight together, pauses that let
+   retransmissions happen) under duplication, reordering, loss of data and of acknowledgements within the retransmission
+   budget, re-chunking of the lite byte stream; per call the same oracle as above, per connection the minor version and
+   structure-header flag of BOTH real RMCClient objects against the model's `conn` line (both_ends_same_codec,
+   negotiated_minor_is_handshake); rpc_request/response_over_faulty_network are the theorems this ties.
 """
 import multiprocessing, os, time
 import vf
 from schema_proto2lean import load_env
 import schema_tie as T
 import schema_rpc as R
+import c14_wire as W14
 from corr_C13 import obligations, proto_names
 
 LEVEL = "proof"
+
+WIRE_CORE = ("ranking", "authentication", "matchmaking", "datastore")      # structures + buffers, anydata, versioned structures, big lists
+
+
+def _run_task(t):
+    return W14.task(t[1]) if t[0] == "wire" else R.task(t[1])
 
 
 def run(ctx):
@@ -35,9 +51,13 @@ def run(ctx):
                 "every versioned structure under every header-on configuration with %s; "
                 "per module slice and protocol: sequences of 7 connections with mixed negotiated minor versions (4,2,4,0,3 plus two random) in which the server side, the client side, "
                 "or both pass ONE shared Settings object to every RMCClient, 3 structure-carrying calls per connection, each connection compared (wire bytes, arguments seen, results, "
-                "header flags) with a fresh pair with fresh Settings, and the shared Settings objects compared with their snapshot. "
+                "header flags) with a fresh pair with fresh Settings, and the shared Settings objects compared with their snapshot; "
+                "over the real PRUDP leg in simulation: %s generated modules x the 4 shipped settings profiles (default v1, 3ds v0, friends v0, switch lite) x %s sessions each "
+                "(one connection, 14..15 calls incl. a group in flight together, fragmenting values, with/without credentials, differing minor versions on the two ends) under "
+                "clean / duplicating / reordering / lossy / ack-losing / all-at-once networks (every distinct datagram lost at most once) resp. a re-chunked byte stream. "
                 "distinct non-trivial = distinct (module, method or structure, configuration, repetition or splice) cases whose oracle held"
-                % ("1" if quick else "4", "8 (revision, extra bytes) splices" if quick else "every higher revision up to 255 and every extra length 1..16"))
+                % ("1" if quick else "4", "8 (revision, extra bytes) splices" if quick else "every higher revision up to 255 and every extra length 1..16",
+                   "7 (4 fixed + 3 drawn)" if quick else "all", "6" if quick else "24"))
     envs = {}
     for n in proto_names(repo):
         env, problem = load_env(protodir, repo, n)
@@ -59,13 +79,22 @@ def run(ctx):
         nchunks = max(1, min(len(cfgs), round(w / (1200 if quick else 300))))
         size = (len(cfgs) + nchunks - 1) // nchunks
         for i in range(0, len(cfgs), size):
-            tasks.append((repo, n, cfgs[i:i + size], ctx.seed, per_item, exe, not quick))
-    tasks.sort(key=lambda t: -weight[t[1]] * len(t[2]))
+            tasks.append(("rpc", (repo, n, cfgs[i:i + size], ctx.seed, per_item, exe, not quick)))
+    tasks.sort(key=lambda t: -weight[t[1][1]] * len(t[1][2]))
+    # ---- the whole path over the simulated network
+    wire_mods = sorted(envs)
+    if quick:
+        core = [m for m in WIRE_CORE if m in envs]
+        rest = [m for m in wire_mods if m not in core]
+        wire_mods = core + ctx.rng.sample(rest, min(3, len(rest)))
+    wire_tasks = [("wire", (repo, n, prof, ctx.seed, exe, 6 if quick else 24)) for n in wire_mods for prof in W14.PROFILES]
+    # interleave: the long rpc slices first, the short wire sessions fill the gaps
+    tasks = tasks[:16] + wire_tasks + tasks[16:]
     mp = multiprocessing.get_context("fork")
     methods, fc_cases = {}, 0
     soft, hard, worker_errors = [], [], []
     with mp.Pool(processes=min(16, os.cpu_count() or 4), maxtasksperchild=1) as pool:
-        for res in pool.imap_unordered(R.task, tasks):
+        for res in pool.imap_unordered(_run_task, tasks):
             if res["error"]:
                 # never abort here: the other workers' findings (failing inputs) are what gets reported; see below
                 worker_errors.append(res)
@@ -121,7 +150,13 @@ def run(ctx):
     ctx.extra["calls_made_in_bursts"] = ctx.tags.get("burst:calls-matched", 0)
     ctx.extra["non_ascii_repetitions"] = sum(c for t, c in ctx.tags.items() if t.startswith("rpc-nonascii-rep:") and not t.endswith("string-positions"))
     ctx.extra["non_ascii_string_positions"] = ctx.tags.get("rpc-nonascii-rep:string-positions", 0)
+    ctx.extra["wire_sessions"] = sum(c for t, c in ctx.tags.items() if t.startswith("wire:") and t.split(":")[1] in W14.PROFILES)
+    ctx.extra["wire_calls_ok"] = sum(c for t, c in ctx.tags.items() if t.startswith("wire-call:") and t.endswith(":ok"))
+    ctx.extra["wire_datagrams"] = ctx.tags.get("wire:datagrams", 0)
+    ctx.extra["wire_network_faults"] = ctx.tags.get("wire:faults", 0)
     ctx.extra["versioned_structures"] = sum(len([s for s in e.versioned() if s["name"] in e.structs]) for e in envs.values())
     ctx.extra["disagreements"] = len(hard) + len(soft)
-    ctx.assumptions.append("the PRUDP layer between the two RMCClient instances is replaced by a pair of in-memory queues (reliable in-order delivery is C01's property)")
+    ctx.assumptions.append("in the per-method sweep the PRUDP layer between the two RMCClient instances is replaced by a pair of in-memory queues; the whole path (real PRUDP endpoints, "
+                           "simulated faulty network) is exercised on a subset of modules in the quick tier and on all modules in the thorough tier, with sampled methods and fault schedules")
+    ctx.assumptions.append("simulated network faults stay inside the retransmission budget: each distinct datagram is lost at most once, delays stay below a quarter of the resend timeout")
     ctx.assumptions.append("values are compared as canonical trees: strings as UTF-8 bytes, floats as IEEE bit patterns, DateTime/Result as integers; gated-out attributes must keep the fresh instance's default")
